@@ -99,3 +99,49 @@ def judge_values(vP, sP, vQ, sQ, rel='==', tol=1e-6, what=('P', 'Q')):
     if rel == '<=' and d > tol * scale:
         return True, 'optimal value %s %.8g exceeds %s %.8g' % (what[1], vQ, what[0], vP)
     return False, 'optima agree (%.8g vs %.8g)' % (vP, vQ)
+
+
+# ------------------------------------------------------------------------------------------------ linear maps
+class LinMap:
+    """phi as an explicit linear map: target variable i = sum_j coef[i][j] * source_j  (coefficients: Fractions).
+    The same object is built from structure only, so the lifted side applies it to z3 terms and the pristine side to floats."""
+
+    def __init__(self, n_target):
+        self.rows = [dict() for _ in range(n_target)]
+
+    def set(self, i, j, coef=1):
+        from fractions import Fraction
+        self.rows[i][j] = self.rows[i].get(j, Fraction(0)) + Fraction(coef)
+
+    def apply_sym(self, x):
+        out = []
+        for r in self.rows:
+            ts = [x[j] if c == 1 else x[j] * sym.ratval(c) for j, c in r.items()]
+            out.append(z3.RealVal(0) if not ts else (ts[0] if len(ts) == 1 else z3.Sum(ts)))
+        return out
+
+    def apply_num(self, x):
+        return [float(sum(float(c) * x[j] for j, c in r.items())) for r in self.rows]
+
+
+def replay_numbers(obsP, obsQ, M, x0, extra_rows=None):
+    """numeric re-evaluation of an embedding at a witness on the unshimmed problems (observations)"""
+    from . import scen
+    y = M.apply_num(x0)
+    out = dict(res_P=scen.feasibility_residual(obsP, x0), res_Q=scen.feasibility_residual(obsQ, y),
+               val_P=-sum(c * v for c, v in zip(obsP['c'], x0)), val_Q=-sum(c * v for c, v in zip(obsQ['c'], y)))
+    if extra_rows:
+        out['res_extra'] = max([0.0] + [abs(sum(co * x0[j] for j, co in r.items())) for r in extra_rows])
+    return out
+
+
+def judge_numbers(nums, label, rel='==', tol=1e-6, what=('P', 'Q')):
+    if nums.get('res_P', 1) > 1e-6 or nums.get('res_extra', 0) > 1e-6:
+        return False, 'witness infeasible for the unshimmed %s problem (residual %.3g)' % (what[0], max(nums.get('res_P', 0), nums.get('res_extra', 0)))
+    if label == 'objective':
+        d = nums['val_Q'] - nums['val_P']
+        scale = max(1.0, abs(nums['val_P']), abs(nums['val_Q']))
+        bad = abs(d) > tol * scale if rel == '==' else (d < -tol * scale if rel == '>=' else d > tol * scale)
+        return bad, 'a feasible point of the %s problem with value %.8g maps to value %.8g in the %s problem' % (what[0], nums['val_P'], nums['val_Q'], what[1])
+    bad = nums['res_Q'] > 1e-6
+    return bad, 'a feasible point of the %s problem maps to an infeasible point of the %s problem (residual %.6g, %s)' % (what[0], what[1], nums['res_Q'], label)
